@@ -32,6 +32,11 @@ def run(env, tier, seed, broken=None):
         cases.append({'id': 'k%d' % n, 'src': src, 'repeat': reps * 2}); n += 1
         src = '%s {a: 1, b: 2, c: 3, d: 4, e: 5, f: 6, g: 7, h: 8}.zz;\n%s x = {a: 1, b: 2, c: 3, d: 4}.a.b;\n' % (PRINT, VAR)
         cases.append({'id': 'k%d' % n, 'src': src, 'repeat': reps * 2}); n += 1
+    for i in range(6 if tier == 'quick' else 40):
+        src = '%s p(x) { %s x; %s x; }\n%s o = {a: p(1), b: p(2), c: p(3), a: p(4), d: p(5), e: p(6), b: p(7), f: p(8), g: p(9), h: p(10)};\n%s o;\n' % (FUN, PRINT, RETURN, VAR, PRINT)
+        cases.append({'id': 'k%d' % n, 'src': src, 'repeat': reps * 2}); n += 1
+        src = '%s "s";\n%s o = {nam: "b", val: 1, lvl: 2, e: 3, f: 4, g: 5, h: 6};\no.self = o;\n%s o;\n' % (PRINT, VAR, PRINT)
+        cases.append({'id': 'k%d' % n, 'src': src, 'repeat': reps, 'timeout_ms': 20000}); n += 1
     for i in range(400 if tier == 'quick' else 6000):
         r = sub_rng(seed, 'C13r%d' % i)
         cases.append({'id': 'r%d' % n, 'src': progs.random_program(r, r.randint(6, 20), 3, fault_rate=0.1), 'repeat': reps}); n += 1
@@ -45,7 +50,8 @@ def run(env, tier, seed, broken=None):
     for c in cases:
         rs = ri[c['id']]
         # "the same first diagnostic": its full text (message and line), byte for byte
-        sig = set((r['status'], r['stdout'], b'\n'.join(r['stderr'].split(b'\n')[:2])) for r in rs)
+        # (when the host runtime itself dies - the recorded finding D14 - its banner carries addresses: first line only)
+        sig = set((r['status'], r['stdout'], b'\n'.join(r['stderr'].split(b'\n')[:(1 if r['status'] == 2 else 2)])) for r in rs)
         nontriv.add(rs[0]['stdout'])
         if len(sig) != 1:
             a = list(sig)[:2]
